@@ -1,6 +1,9 @@
 LEVEL = "model_checking"
 HARNESSES = [
     dict(name="threads", src=["threads.c"], variant="sched", wrap=True, deadline={"quick": 150, "thorough": 1500}),
+    # free-running ThreadSanitizer twin of the scenario bodies (DESIGN 4.5): no wrapping, OS scheduler, decides nothing;
+    # discharges VSX's proviso that there is no unsynchronised access between schedule points
+    dict(name="threads-tsan", src=["threads.c"], variant="tsan", cflags=["-DVSX_FREE"], tiers=["thorough"], deadline={"thorough": 600}),
 ]
 ASSUMPTIONS = [
     "interleavings are sequentially consistent and switch only at lock, trylock, condvar operations, thread create/join/exit, pthread_once and atomics (DESIGN 4.4)",
